@@ -337,6 +337,26 @@ def run(tier):
                 run_.merge(acc)
         finally:
             shutil.rmtree(os.path.dirname(exe), ignore_errors=True)
+    # ... and on builds for a C library that offers one of the other secure-erase primitives instead
+    for bname, ov in (("memset_explicit", {"HAVE_MEMSET_EXPLICIT": 1}),
+                      ("memset_s", {"HAVE_MEMSET_EXPLICIT": None, "HAVE_MEMSET_S": 1}),
+                      ("explicit_memset", {"HAVE_MEMSET_EXPLICIT": None, "HAVE_MEMSET_S": None, "HAVE_EXPLICIT_BZERO": None,
+                                           "HAVE_EXPLICIT_MEMSET": 1})):
+        name, en, exe, err, _ = C19.build_config(("c09-" + bname, list(gen.METHODS), ov, "-O2 -g0"))
+        if exe is None:
+            run_.acc.inconc("build for a C library with %s failed: %s" % (bname, err[-300:]))
+            continue
+        try:
+            nh2 = max(4, nh // 4)
+            work_d = [(make_requests(run_.seed, tier, "d%s%d" % (bname, i)), run_.seed * 1000 + 700 + i, exe) for i in range(nh2)]
+            for acc in pool.pmap(do_object, work_d):
+                for v in acc.viol:
+                    v["key"] = v["key"] + "@" + bname
+                    v["detail"] = "[C library with %s] %s" % (bname, v["detail"])
+                run_.merge(acc)
+            run_.acc.count("erase_primitive_builds")
+        finally:
+            shutil.rmtree(os.path.dirname(exe), ignore_errors=True)
     run_prim(run_, tier)
     a = run_.acc
     cov = {
@@ -359,6 +379,7 @@ def run(tier):
         "primitive_stack_scans": int(a.n.get("prim_stack_scans", 0)),
         "primitive_ops_with_stack_residue_informational": sorted(a.sets.get("prim_residue", ())),
         "object_checks_own_explicit_bzero_build": int(sum(v for k, v in a.n.items() if k.startswith("objown/"))),
+        "builds_with_another_erase_primitive": int(a.n.get("erase_primitive_builds", 0)),
         "flavours": ["asan (object monitor)", "o0 -z now (stack, ledger, entropy, primitives)",
                      "-O2 build without libc explicit_bzero: lib/util-xbzero.c in use (object monitor)"],
     }
